@@ -9,6 +9,7 @@ CONSTANTS
   Minutes <- Mi
   Seconds <- Se
   Excel = FALSE
+  OnePassTranslation = TRUE
 INVARIANT TypeOK
 INVARIANT DateMeansWhatItSays
 INVARIANT Emit
